@@ -210,6 +210,7 @@ Proof.
   assert (E406 : error_status 406) by (unfold error_status; lia).
   assert (E409 : error_status 409) by (unfold error_status; lia).
   assert (E503 : error_status 503) by (unfold error_status; lia).
+  assert (E403 : error_status 403) by (unfold error_status; lia).
   unfold server.
   destruct (read_request R F s) as [[[[[m u] q] h]|e|p] s1]; [| |right; eexists; reflexivity].
   2:{ left. eexists; split; [reflexivity|]. left. exists [], 400. auto. }
@@ -234,7 +235,9 @@ Proof.
       * eexists; split; [reflexivity|]. right. right.
         apply andb_true_iff in Esup. destruct Esup as [H1 H2]. apply negb_true_iff in H1. auto.
     + eexists; split; [reflexivity|]. left. exists [200], 503. auto.
-  - eexists; split; reflexivity.
+  - destruct (negb (c_secure c) && c_cert c && c_reqcc c).
+    + eexists; split; [reflexivity|]. left. exists [200], 403. auto.
+    + eexists; split; reflexivity.
 Qed.
 
 (* the server always produces an observation, and it has the shape above *)
